@@ -301,6 +301,11 @@ def observe_identify(spec, workdir, tag):
         cpath = os.path.join(d, "copy", "renamed_" + fname + ".dat")
         shutil.copyfile(path, cpath)
         (s3, f3), _ = call_quiet(poly.identify_pytorch_file_format, cpath)
+        # history: ONE path outside this case's directory is rewritten with every case's bytes in turn and
+        # identified again -- the answer must be that of the bytes it holds now, whatever it held before
+        spath = os.path.join(workdir, "same_path_rewritten.bin")
+        shutil.copyfile(path, spath)
+        (s4, f4), _ = call_quiet(poly.identify_pytorch_file_format, spath)
         legacy = None
         if sp == "ok" and props.get("is_tar"):
             (sl, lv), _ = call_quiet(poly.check_if_legacy_format, path)
@@ -310,7 +315,7 @@ def observe_identify(spec, workdir, tag):
     magic, rec = torch_accepts(path)
     obs = {
         "spec": spec, "tag": tag,
-        "first": [s1, f1], "second": [s2, f2], "copy": [s3, f3],
+        "first": [s1, f1], "second": [s2, f2], "copy": [s3, f3], "same_path": [s4, f4],
         "props": props if sp == "ok" else None, "props_status": sp,
         "stdout": out1, "legacy": legacy,
         "before": before, "after": after,
@@ -433,6 +438,9 @@ def oracle_identify(o):
         return f"identification is not deterministic: {o['first']} then {o['second']}"
     if o["first"] != o["copy"]:
         return f"identification depends on more than the bytes: {o['first']} vs renamed copy {o['copy']}"
+    if "same_path" in o and o["first"] != o["same_path"]:
+        return (f"identification depends on more than the bytes: {o['first']} vs the same bytes written over a "
+                f"path that held another file before {o['same_path']}")
     if s1 != "ok":
         return None  # raising is outside the table (nothing documented); tie handles it
     names = o["names"] or []
@@ -527,6 +535,10 @@ def run_case(job):
     work = os.path.join(scratch, "work")
     os.makedirs(work, exist_ok=True)
     if case["kind"] == "identify":
+        # give the shared path a history first (two files with other members), as the full run does
+        for j, names in enumerate((["archive/data.pkl", "archive/version"], ["model.json", "constants.pkl"])):
+            observe_identify({"k": "synth", "names": names, "junk": 0, "trail": "none", "label": f"history{j}"},
+                             work, f"history{j}")
         o = observe_identify(case["spec"], work, "replay")
         return {"why": oracle_identify(o), "obs": o}
     if case["kind"] == "record":
